@@ -244,7 +244,7 @@ def specs(tier='quick'):
 
 def lemma_proofs():
     """allunsel / all_items distribute over append (structural induction on the first list)"""
-    from pyvc.core import _mk_solver, P_BIG
+    from pyvc.core import check_retry, P_BIG
 
     def prove(fname):
         f = allunsel(_FLT) if fname == 'allunsel' else wf_items()
@@ -253,11 +253,7 @@ def lemma_proofs():
         stmt = lambda a: f(T.app(a, b)) == z3.And(f(a), f(b))
         out = []
         for tag, hyps, goal in (('base', [], stmt(VL.nil)), ('step', [stmt(r)], stmt(VL.cons(x, r)))):
-            s = _mk_solver(P_BIG)
-            for h in hyps:
-                s.add(h)
-            s.add(z3.Not(goal))
-            out.append((tag, str(s.check())))
+            out.append((tag, str(check_retry(list(hyps) + [z3.Not(goal)], P_BIG))))
         return out
     return T.base_lemma_proofs() + [('allunsel(app(a,b)) == allunsel(a) and allunsel(b)  (for arbitrary filter parameters)', lambda: prove('allunsel')),
             ('all_items(app(a,b)) == all_items(a) and all_items(b)', lambda: prove('items'))]
